@@ -414,6 +414,16 @@ func c09R3(c *Ctx) {
 			for _, sk := range c09WholeSinks(host, host != h.del && host != h.deleteOne) {
 				at, whole := sk.at, sk.whole
 				// slices.DeleteFunc(danglings, isTagged): keeps exactly the untagged ones
+				if keep, isFilter := c09FilterSeqOf(whole, dAliases); isFilter {
+					// an iterator pipeline that keeps the elements for which keep(d) holds: keep must be !isTagged
+					nEnq++
+					usesInline = true
+					ok := c09GuardedUp(c.P, at, nil, autoGCEdges, 2)
+					c.Check(R3, dn+"|dangling-only-under-AutoGC", at.Pos(), ok, ifelse(ok, "a dangling node is enqueued only on the s.AutoGC edge", "dangling nodes are deleted although AutoGC is off"))
+					ok = c09PredIsNot(keep, h.isTagged)
+					c.Check(R3, dn+"|dangling-only-if-untagged", at.Pos(), ok, ifelse(ok, "only the dangling nodes for which !isTagged(d) holds pass the filter before they are enqueued", "the dangling nodes are filtered with a predicate that is not the negated isTagged test: a tagged manifest can be deleted"))
+					continue
+				}
 				if df := c09DeleteFuncOf(whole, dAliases); df != nil {
 					nEnq++
 					usesInline = true
@@ -1299,6 +1309,11 @@ func c09WholeSinks(fn *ssa.Function, withReturns bool) []c09WholeSink {
 			add(ap.(ssa.Instruction), whole, 0)
 		}
 	}
+	for _, ap := range CallsTo(fn, "slices.AppendSeq") { // append every element of an iterator
+		if a := ap.Common().Args; len(a) == 2 {
+			add(ap.(ssa.Instruction), a[1], 0)
+		}
+	}
 	if withReturns {
 		for _, r := range Returns(fn) {
 			for _, res := range r.Results {
@@ -1312,6 +1327,120 @@ func c09WholeSinks(fn *ssa.Function, withReturns bool) []c09WholeSink {
 		}
 	}
 	return out
+}
+
+// c09FilterAdapter: g(seq, keep) returns an iterator that yields exactly those
+// elements v of seq for which keep(v) is true (only they are yielded).  Returns
+// the indexes of the two parameters.
+func c09FilterAdapter(g *ssa.Function) (seqParam, keepParam int, ok bool) {
+	if g == nil || !inModule(g) || len(g.Blocks) == 0 {
+		return -1, -1, false
+	}
+	paramIdx := func(v ssa.Value) int {
+		if pf, i := c09ParamOf(c09Resolved(v)); pf == g {
+			return i
+		}
+		return -1
+	}
+	for _, a := range RetAtoms(g, 0) {
+		mc, isMC := strip(a.Val).(*ssa.MakeClosure)
+		if !isMC {
+			return -1, -1, false
+		}
+		P := mc.Fn.(*ssa.Function)
+		if len(P.Params) == 0 {
+			return -1, -1, false
+		}
+		yield := P.Params[len(P.Params)-1]
+		found := false
+		AllInstrs(P, func(in ssa.Instruction) {
+			seq, body, isRF := c09RangeFuncCall(in)
+			if !isRF || len(body.Params) == 0 {
+				return
+			}
+			si := paramIdx(seq)
+			if si < 0 {
+				return
+			}
+			v := body.Params[0]
+			// yield(v) in the body, guarded by keep(v)
+			for _, yc := range Calls(body, func(string) bool { return true }) {
+				call, isCall := yc.(*ssa.Call)
+				if !isCall || call.Call.IsInvoke() || c09Resolved(call.Call.Value) != ssa.Value(yield) || len(call.Call.Args) == 0 || !c09SameKey(call.Call.Args[0], v) {
+					continue
+				}
+				for _, i := range Ifs(body) {
+					cond, t, _ := ifEdges(i)
+					kc, isKC := cond.(*ssa.Call)
+					if !isKC || kc.Call.IsInvoke() || len(kc.Call.Args) != 1 || !c09SameKey(kc.Call.Args[0], v) {
+						continue
+					}
+					ki := paramIdx(kc.Call.Value)
+					if ki >= 0 && c09Guarded(call, []Edge{t}) {
+						seqParam, keepParam, found = si, ki, true
+					}
+				}
+			}
+		})
+		if !found {
+			return -1, -1, false
+		}
+	}
+	return seqParam, keepParam, seqParam >= 0
+}
+
+// c09FilterSeqOf: seq iterates over the elements of the slice (slices.Values)
+// that satisfy a predicate, through an in-module filter adapter: returns the predicate.
+func c09FilterSeqOf(seq ssa.Value, slice map[ssa.Value]bool) (keep ssa.Value, ok bool) {
+	if seq == nil {
+		return nil, false
+	}
+	call, isCall := c09Resolved(seq).(*ssa.Call)
+	if !isCall {
+		return nil, false
+	}
+	si, ki, isFilter := c09FilterAdapter(StaticCallee(call))
+	if !isFilter || si >= len(call.Call.Args) || ki >= len(call.Call.Args) {
+		return nil, false
+	}
+	src, isSrc := c09Resolved(call.Call.Args[si]).(*ssa.Call)
+	if !isSrc || CalleeName(src) != "slices.Values" || len(src.Call.Args) != 1 {
+		return nil, false
+	}
+	x := c09Resolved(src.Call.Args[0])
+	if !slice[x] && !slice[src.Call.Args[0]] {
+		return nil, false
+	}
+	return call.Call.Args[ki], true
+}
+
+// c09PredIsNot: pred(d) == !target(d): a closure that returns the negation of a call of target on its parameter.
+func c09PredIsNot(pred ssa.Value, target *ssa.Function) bool {
+	if target == nil {
+		return false
+	}
+	for _, rt := range Roots(c09Resolved(pred)) {
+		mc, ok := rt.(*ssa.MakeClosure)
+		if !ok {
+			return false
+		}
+		fn := mc.Fn.(*ssa.Function)
+		atoms := RetAtoms(fn, 0)
+		if len(atoms) == 0 || len(fn.Params) != 1 {
+			return false
+		}
+		for _, a := range atoms {
+			not, isNot := a.Val.(*ssa.UnOp)
+			if !isNot || not.Op != token.NOT {
+				return false
+			}
+			call, isCall := not.X.(*ssa.Call)
+			if !isCall || StaticCallee(call) != target || !c09SameKey(call.Call.Args[len(call.Call.Args)-1], fn.Params[0]) {
+				return false
+			}
+		}
+	}
+	return true
 }
 
 // c09DeleteFuncOf: whole is slices.DeleteFunc(X, pred) where X is the slice (or a
